@@ -1447,6 +1447,23 @@ fn k_zeroize_probe(sc: &J, r: &R) {
         let mut rd = h.finalize_xof();
         let mut first = [0u8; 64];
         rd.fill(&mut first);
+        // optional reader script before the wipe: [["fill", n] | ["set", position]]*
+        for step in sc.arr("reader_ops") {
+            let what = step.s("op");
+            let v = step.get("v").as_i128().unwrap_or(0);
+            if what == "fill" {
+                let mut b = vec![0u8; v as usize];
+                rd.fill(&mut b);
+            } else if what == "set" {
+                rd.set_position(v as u64);
+            }
+        }
+        // the first 256 bytes of the output stream are secret too (block 0 starts with the hash / MAC / derived key)
+        let mut stream = [0u8; 256];
+        {
+            let mut rd2 = h.finalize_xof();
+            rd2.fill(&mut stream);
+        }
         let mut hash = h.finalize();
         secrets.push(("hash".into(), hash.as_bytes().to_vec()));
         h.zeroize();
@@ -1469,7 +1486,7 @@ fn k_zeroize_probe(sc: &J, r: &R) {
         // raw input: ANY 8 consecutive bytes of what was absorbed (the block buffer may keep stale tails)
         if residue.is_empty() && pos >= 8 {
             let mut wins: std::collections::HashSet<[u8; 8]> = std::collections::HashSet::new();
-            for w in data[..pos].windows(8) {
+            for w in data[..pos].windows(8).chain(stream.windows(8)) {
                 if w.iter().any(|b| *b != 0) {
                     let mut a = [0u8; 8];
                     a.copy_from_slice(w);
@@ -1481,7 +1498,7 @@ fn k_zeroize_probe(sc: &J, r: &R) {
                     let mut a = [0u8; 8];
                     a.copy_from_slice(w);
                     if wins.contains(&a) {
-                        residue = format!("{}: 8 input bytes at object offset {}", what, i);
+                        residue = format!("{}: 8 input or output-stream bytes at object offset {}", what, i);
                         break;
                     }
                 }
